@@ -31,6 +31,7 @@ type pSpec struct {
 	rules   []pRule  // rules[0] is the start rule
 	bounds  bool
 	boundsFirst bool // _onBounds is declared before the action methods
+	literals    bool // tokens are written as their literal ('a') in the parser section
 	discard string // token whose Discard() is true (for *!)
 	maxLen  int
 	withErr bool // inputs also contain lexer ERROR tokens
@@ -81,6 +82,20 @@ func (s pSpec) rule(n string) *pRule {
 }
 
 func (s pSpec) termText(t pTerm) string {
+	ref := func(name string, isTok bool) string {
+		if s.literals && isTok {
+			return fmt.Sprintf("'%c'", 'a'+s.tokIndex(name)-2)
+		}
+		return name
+	}
+	switch t.kind {
+	case "tok":
+		return ref(t.name, true)
+	case "list":
+		return fmt.Sprintf("@list(%s, %s)", ref(t.name, t.elemIsTok()), ref(t.sepTok(), true))
+	case "listopt":
+		return fmt.Sprintf("@list(%s, %s)?", ref(t.name, t.elemIsTok()), ref(t.sepTok(), true))
+	}
 	switch t.kind {
 	case "tok", "rule":
 		return t.name
@@ -745,6 +760,10 @@ func parseFixtures() []pSpec {
 			{"s", []pProd{P(rl("pp"), pTerm{kind: "error"}, tk("Z")), P(tk("Q"))}},
 			{"pp", []pProd{P(rl("xx"))}},
 			{"xx", []pProd{P()}},
+		}},
+		// two optional lists that differ only in a separator written as a literal
+		{name: "optional-lists-literal-separators", literals: true, tokens: []string{"LB", "RB", "LC", "RC", "ID", "COMMA", "SEMI"}, maxLen: 5, rules: []pRule{
+			{"s", []pProd{P(tk("LB"), listOf("listopt", tk("ID"), "COMMA"), tk("RB"), tk("RB")), P(tk("LC"), listOf("listopt", tk("ID"), "SEMI"), tk("RC"))}},
 		}},
 		// @error as an alternative of a recursive rule: after the reduction of "s = @error" the
 		// offending token is still the lookahead (LALR merges the lookaheads of that item)
